@@ -148,7 +148,32 @@ pub fn gen_spec(rng: &mut Rng, tier: Tier) -> Spec {
 
 fn gen_matrix(rng: &mut Rng, tier: Tier) -> Spec {
     let maxdim = if tier == Tier::Quick { 64 } else { 200 };
-    let kind = rng.weighted(&[4, 5, 1, 1]);
+    let kind = rng.weighted(&[3, 4, 1, 1, 5]);
+    if kind == 4 {
+        // large determinants (needing 2-10 chunks of four 56-bit CRT primes): heavy random diagonal
+        // plus a few small off-diagonal entries
+        let dim = rng.range(40, if tier == Tier::Quick { 150 } else { 250 }) as usize;
+        let dmax = *rng.pick(&[30i32, 60, 120, 120]);
+        let mut rows = vec![];
+        for i in 0..dim {
+            let mut v = rng.range(2, dmax as u64) as i32;
+            if rng.chance(0.4) {
+                v = -v;
+            }
+            let mut row: Vec<(u32, i32)> = vec![(i as u32, v)];
+            // a full cycle keeps the matrix irreducible (the Wiedemann sequence taken from the first
+            // coordinate then has full degree)
+            row.push((((i + 1) % dim) as u32, *rng.pick(&[1, -1, 2, 3])));
+            for _ in 0..rng.range(0, 3) {
+                let j = rng.below(dim as u64) as u32;
+                if row.iter().all(|e| e.0 != j) {
+                    row.push((j, *rng.pick(&[1, 1, -1, -1, 2, -2, 3, 7, -11])));
+                }
+            }
+            rows.push(row);
+        }
+        return Spec { dim, rows, extra_rows: vec![], kind: "heavy_diagonal_large_det".into(), known_det: None };
+    }
     let dim = match rng.below(3) {
         0 => rng.range(8, 16),
         1 => rng.range(8, 40),
@@ -400,6 +425,10 @@ impl Family for LatticeFamily {
             return rep;
         }
         let rout = reference.out.clone().unwrap();
+        if rout.det == "0" && spec.kind.starts_with("heavy") {
+            rep.stat("heavy_diagonal_sequential_det_zero", 1);
+        }
+        rep.stat(&format!("det_bits_{}00", rout.det.len() * 10 / 3 / 100), 1);
         // statistics (input-only, not alarms): sequential result vs construction / own elimination
         if let Some(k) = &spec.known_det {
             if *k != rout.det {
@@ -427,13 +456,31 @@ impl Family for LatticeFamily {
             }
         }
         crate::common::phase(idx, "subruns");
-        let nsub = if tier == Tier::Quick { 10 } else { 32 };
+        let mut nsub = if tier == Tier::Quick { 10 } else { 32 };
+        if let Ok(v) = std::env::var("VERIF_NSUB") {
+            nsub = v.parse().unwrap_or(nsub); // debugging aid, never set by the registered commands
+        }
         for j in 0..nsub {
             let mut r = Rng::new(derive(seed, prop, idx, "sub") ^ simcore::prng::mix(&[j]));
             let threads = *r.pick(&[2usize, 2, 3, 4, 4, 6, 8]);
             let mut cfg = gen_sim_cfg(&mut r, reference.sim.steps.max(200), threads, j % 4 != 0);
             cfg.stale = None; // every shared access in detz is SeqCst or under the lock
+            if j % 4 != 0 {
+                // lock acquisitions are rare here (one or two per chunk): stall them often, so that a
+                // chunk that has finished computing commits late
+                cfg.stall_prob = *r.pick(&[0.02, 0.1, 0.3]);
+                cfg.stall_prob_store = *r.pick(&[0.1, 0.3]);
+                cfg.stall_max_len = *r.pick(&[200u64, 5000, 1 << 40]);
+            }
             let out = run_lattice(&spec, Some(threads), cfg.clone());
+            if std::env::var("VERIF_TRACE").is_ok() {
+                eprintln!(
+                    "  sub {j}: threads={threads} strat={} stall=({},{},{}) steps={} stalls={:?} same_det={}",
+                    cfg.strategy.name(), cfg.stall_prob, cfg.stall_prob_store, cfg.stall_max_len, out.sim.steps,
+                    out.sim.fault_counts.get("stall"),
+                    out.out.as_ref().map(|o| o.det == rout.det).unwrap_or(false)
+                );
+            }
             rep.absorb(&out.sim, false);
             rep.stat(&format!("threads_{threads}"), 1);
             for (oracle, class, message) in judge(Some(&rout), &out, false) {
